@@ -359,6 +359,15 @@ func (c *streamCtx) dirC02() []genCase {
 				}
 				b.done()
 				out = append(out, single(s, fmt.Sprintf("C02 cool=%s lock=%s need=%s", cool, l.name, nd.name)))
+				// the provider refresh fails first: RunOnce sleeps, rebuilds the provider and must still honour the lock it holds
+				if cool == "10m" && (l.name == "mid" || l.name == "never armed") && (ni == 0 || ni == 3 || (c.thorough && ni < 5)) {
+					s2 := cloneSpec(s)
+					s2.RefreshFails = 1
+					if c.thorough && ni == 3 && l.name == "mid" {
+						s2.RefreshFails = 2
+					}
+					out = append(out, single(s2, fmt.Sprintf("C02 refresh fails %dx cool=%s lock=%s need=%s", s2.RefreshFails, cool, l.name, nd.name)))
+				}
 			}
 		}
 	}
